@@ -196,7 +196,16 @@ func genCase(r *hx.Rand, tier string) *caseT {
 				k.Prog = append(k.Prog, opT{K: "H", Key: h[0], Vals: []string{h[1]}})
 			}
 		}
-		if r.Chance(2, 3) {
+		if r.Chance(1, 5) {
+			cs := [][]byte{chunk()}
+			if len(cs[0]) == 0 {
+				cs[0] = []byte("x")
+			}
+			if r.Chance(1, 2) {
+				cs = append(cs, []byte("second chunk"))
+			}
+			k.Prog = append(k.Prog, opT{K: "Dr", Key: hx.Pick(r, []string{"len", "unknown"}), Code: hx.Pick(r, codePool), S: hx.Pick(r, ctPool[:12])[0], Chunks: cs})
+		} else if r.Chance(2, 3) {
 			d := chunk()
 			if r.Chance(1, 12) { // more than io.Copy's 32 KiB buffer: several writes
 				d = append(d, bytes.Repeat([]byte{'z'}, hx.Pick(r, []int{32768, 40000, 70000}))...)
@@ -288,7 +297,14 @@ func genCase(r *hx.Rand, tier string) *caseT {
 				k.Prog = append(k.Prog, opT{K: "Dt", Code: hx.Pick(r, codePool), S: hx.Pick(r, ctPool[:12])[0], Data: []byte(s)})
 			}
 		case 22:
-			k.Prog = append(k.Prog, opT{K: "Js", Code: hx.Pick(r, codePool), S: strings.Repeat("v", genSize(r, thr, big))})
+			switch r.Intn(4) {
+			case 0:
+				k.Prog = append(k.Prog, opT{K: "Sf", Key: hx.Pick(r, []string{"fast", "fmt"}), Code: hx.Pick(r, codePool), S: strings.Repeat("s", genSize(r, thr, big))})
+			case 1:
+				k.Prog = append(k.Prog, opT{K: "Ym", Code: hx.Pick(r, codePool), S: strings.Repeat("y", genSize(r, thr, big))})
+			default:
+				k.Prog = append(k.Prog, opT{K: "Js", Code: hx.Pick(r, codePool), S: strings.Repeat("v", genSize(r, thr, big))})
+			}
 			first = false
 		}
 	}
